@@ -38,9 +38,10 @@ for l in names:
 print(json.dumps({"Replace":rep}))
 PY
   export GOCACHE=/verif/.cache/go-build CGO_ENABLED=1
+  export VERIF_EVIDENCE_DIR=/tmp/vs-$$.evidence
   (cd /verif/harness && go build -tags verif -overlay /tmp/vs-$$.overlay.json -o /verif/.bin/check-seed-$$ . ) || { res "overlay build failed"; exit 2; }
   timeout 1500 /verif/.bin/check-seed-$$ -prop "$ID" -tier "$TIER" > /tmp/vs-$$.out 2>&1; RC=$?
-  rm -f /verif/.bin/check-seed-$$ /tmp/vs-$$.overlay.json
+  rm -rf /verif/.bin/check-seed-$$ /tmp/vs-$$.overlay.json /tmp/vs-$$.evidence; unset VERIF_EVIDENCE_DIR
 else
 if [ -n "$(git -C /repo status --porcelain)" ]; then res "ABORT /repo not clean"; exit 2; fi
 git -C /repo apply "$SRC/patch.diff" || exit 2
@@ -52,6 +53,7 @@ NV=$(grep -c '^VIOLATION' /tmp/vs-$$.out)
 FIRST=$(grep -A2 '^VIOLATION' /tmp/vs-$$.out | head -3 | tr '\n' ' ' | cut -c1-400)
 SUMMARY=$(tail -1 /tmp/vs-$$.out)
 DEST=/verif/seeded/$ID-$LABEL
+[ "${NO_STORE:-0}" = "1" ] && DEST=/tmp/vs-$$.dest   # dry run: nothing is left under seeded/
 mkdir -p "$DEST"; cp "$SRC/patch.diff" "$SRC/demo_test.go" "$DEST/"; [ -f "$SRC/notes.txt" ] && cp "$SRC/notes.txt" "$DEST/"
 python3 - "$ID" "$LABEL" "$TIER" "$RC" "$NV" "$FIRST" "$SUMMARY" "$DEST" <<'PY'
 import json,sys,subprocess
@@ -76,3 +78,5 @@ json.dump(meta,open(dest+"/meta.json","w"),indent=1)
 print("SEED %s-%s: detected=%s exit=%s violations=%s | %s"%(id,label,meta["detected"],rc,nv,first[:200]))
 PY
 rm -f /tmp/vs-$$.out
+if [ "${NO_STORE:-0}" = "1" ]; then rm -rf /tmp/vs-$$.dest; fi
+exit 0
